@@ -322,5 +322,250 @@ theorem fillF_WG (nv : Nat) (nb : Option Nat) (s : Slots) (p r q : Nat) (oq : Op
       | some x => unfold prevRel; rw [hx]; rfl
     | inr h => exact hAs w h
 
+
+theorem fil_all_of_none (s : Slots) (p r : Nat) (hr : prevOcc (occ s) r = none) (A : Nat → Bool) (nv : Nat) :
+    ∀ v, v < nv → ∀ x, prevOcc (occV s v) p = some x → (fil s p r v || A v) = true := by
+  intro v _ x hx
+  have hxocc := occ_of_occV (prevOcc_lt hx).2
+  rw [prevOcc_none_iff] at hr
+  have : r ≤ x := by
+    by_cases h : r ≤ x
+    · exact h
+    · have := hr x (by omega); rw [hxocc] at this; cases this
+  unfold fil
+  simp [hx, this]
+
+/-- the walk of `iter_ops_above_p` -/
+theorem fillWalk_WG (nv : Nat) (nb : Option Nat) (s : Slots) (p : Nat) (hwf : WF nv nb s) (A : Nat → Bool) :
+    ∀ (fuel r : Nat) (a : Cursor), r ≤ p → WG nv s p (fun w => fil s p r w || A w) a →
+      (∀ q, prevOcc (occ s) r = some q → q < fuel) →
+      ∃ fl, WG nv s p fl (fillWalk (canon nv nb s) fuel (prevOcc (occ s) r) a) ∧
+        (∀ v, v < nv → ∀ x, prevOcc (occV s v) p = some x → fl v = true) := by
+  intro fuel
+  induction fuel with
+  | zero =>
+    intro r a _ hw hf
+    have hr : prevOcc (occ s) r = none := by
+      cases h : prevOcc (occ s) r with
+      | none => rfl
+      | some q => have := hf q h; omega
+    exact ⟨_, by simpa [fillWalk] using hw, fil_all_of_none s p r hr A nv⟩
+  | succ fuel ih =>
+    intro r a hrp hw hf
+    cases hr : prevOcc (occ s) r with
+    | none => exact ⟨_, by simpa [fillWalk] using hw, fil_all_of_none s p r hr A nv⟩
+    | some q =>
+      obtain ⟨hqr, hqocc⟩ := prevOcc_lt hr
+      obtain ⟨oq, hsq⟩ := occ_iff.mp hqocc
+      simp only [fillWalk, getNode_canon, hsq, Option.map_some]
+      have hstep := fillF_WG nv nb s p r q oq A hwf hrp hr hsq a hw
+      by_cases hcont : (fillF q (canonNode s q oq) a).2 = true
+      · simp only [hcont, if_true]
+        have hprev : (canonNode s q oq).previousP = prevOcc (occ s) q := rfl
+        rw [hprev]
+        apply ih q _ (by omega) hstep
+        intro q' hq'
+        have := (prevOcc_lt hq').1
+        have := hf q hr
+        omega
+      · simp only [hcont, Bool.false_eq_true, if_false]
+        refine ⟨_, hstep, ?_⟩
+        apply WG_all_of_zero nv s p hstep
+        have : (fillF q (canonNode s q oq) a).2 = decide ((fillF q (canonNode s q oq) a).1.unfilled > 0) := rfl
+        rw [this] at hcont
+        simpa using hcont
+
+theorem zip_self_map {β : Type} (l : List Nat) (F : Nat → β) :
+    l.zip (l.map F) = l.map (fun v => (v, F v)) := by
+  induction l with
+  | nil => rfl
+  | cons a t ih => simp [ih]
+
+/-- the op sitting exactly at `p` -/
+theorem fillAtP_WG (nv : Nat) (nb : Option Nat) (s : Slots) (p : Nat) (op : Op) (hwf : WF nv nb s)
+    (hsp : slotAt s p = some op) (a : Cursor) (hw : WG nv s p (fun _ => false) a) :
+    ∃ A : Nat → Bool, WG nv s p (fun w => fil s p p w || A w) (fillAtP (canonNode s p op) a).1 := by
+  obtain ⟨_, hnodup, hlt, _⟩ := hwf p op hsp
+  refine ⟨fun w => op.vars.reverse.contains w && (prevRel s w p).isSome, ?_⟩
+  unfold fillAtP
+  simp only [canonNode, zip_self_map]
+  let I : List Nat → Cursor → Prop := fun D a' =>
+    WG nv s p (fun w => D.contains w && (prevRel s w p).isSome) a'
+  have hbase : I [] a := WG_congr nv s p (fun v _ => by simp) (fun v hv => by simp at hv) hw
+  have hfold := fold_inv' I
+    (fun (a : Cursor) (vp : Nat × Option PRel) =>
+      match vp.2 with
+      | none => a
+      | some prel =>
+        match a.varToSubvar vp.1 with
+        | some sub =>
+          if (a.lastVar sub).isNone then
+            { a with unfilled := a.unfilled - 1, lastVars := a.lastVars.set sub (some prel.p),
+                     lastRels := a.lastRels.set sub (some prel.relv) }
+          else a
+        | none => a)
+    (fun vp => vp.1) (fun vp => vp.2 = prevRel s vp.1 p ∧ vp.1 ∈ op.vars)
+    (by
+      intro D a' x hx hD hI
+      obtain ⟨hx2, hxmem⟩ := hx
+      have hxn : x.1 < nv := hlt x.1 hxmem
+      cases hpr : x.2 with
+      | none =>
+        simp only []
+        apply WG_congr nv s p _ _ hI
+        · intro w _
+          by_cases hw' : w = x.1
+          · rw [hw', ← hx2, hpr]; simp [hD]
+          · simp [hw']
+        · intro w hw'
+          simp only [Bool.and_eq_true] at hw'
+          exact hw'.2
+      | some prel =>
+        simp only []
+        have hsub : a'.varToSubvar x.1 = some x.1 := by simp [Cursor.varToSubvar, hI.hm]
+        simp only [hsub]
+        have hln := WG_lastVar nv s p hI x.1 hxn
+        have hflD : (D.contains x.1 && (prevRel s x.1 p).isSome) = false := by
+          simp [hD]
+        rw [hflD] at hln
+        simp only [Bool.not_false] at hln
+        simp only [hln, if_true]
+        have hprel : prevRel s x.1 p = some prel := by rw [← hx2, hpr]
+        have := WG_fill nv s p hI x.1 hxn prel hprel hflD
+        apply WG_congr nv s p _ _ this
+        · intro w _
+          by_cases hw' : w = x.1
+          · subst hw'; simp [hprel]
+          · simp [hw']
+        · intro w hw'
+          simp only [Bool.and_eq_true] at hw'
+          exact hw'.2)
+    (op.vars.map (fun v => (v, prevRel s v p))) [] a
+    (by
+      intro x hx
+      rw [List.mem_map] at hx
+      obtain ⟨v, hv, e⟩ := hx
+      subst e
+      exact ⟨rfl, hv⟩)
+    (by rw [List.map_map]; simpa [Function.comp_def] using hnodup) (by simp) hbase
+  rw [List.map_map, List.append_nil] at hfold
+  have hkeys : (List.map ((fun (vp : Nat × Option PRel) => vp.1) ∘ fun v => (v, prevRel s v p)) op.vars) = op.vars := by
+    simp [Function.comp_def]
+  rw [hkeys] at hfold
+  have hfil : ∀ w, fil s p p w = false := by
+    intro w
+    unfold fil
+    cases hx : prevOcc (occV s w) p with
+    | none => rfl
+    | some x => have := (prevOcc_lt hx).1; simp; omega
+  have hfold' : WG nv s p (fun w => op.vars.reverse.contains w && (prevRel s w p).isSome)
+      { (List.foldl _ a (op.vars.map (fun v => (v, prevRel s v p)))) with
+        lastP := prevOcc (occ s) p } :=
+    ⟨hfold.hm, hfold.hv, hfold.hr, hfold.hc, hfold.hs⟩
+  apply WG_congr nv s p _ _ hfold'
+  · intro w _; simp [hfil]
+  · intro w hw'
+    simp only [hfil, Bool.false_or, Bool.and_eq_true] at hw'
+    exact hw'.2
+
+theorem replicate_eq_range_map {β : Type} (n : Nat) (x : β) :
+    List.replicate n x = (List.range n).map (fun _ => x) := by
+  apply List.ext_getElem?
+  intro i
+  simp only [List.getElem?_replicate, List.getElem?_map]
+  by_cases hi : i < n
+  · simp [hi]
+  · simp [hi]
+
+theorem emptyArgs_WG (nv : Nat) (nb : Option Nat) (s : Slots) (p : Nat) :
+    WG nv s p (fun _ => false) (canon nv nb s).getEmptyArgsAll := by
+  constructor
+  · rfl
+  · simp [getEmptyArgsAll, getNvars, canon, replicate_eq_range_map]
+  · simp [getEmptyArgsAll, getNvars, canon, replicate_eq_range_map]
+  · simp only [getEmptyArgsAll, canon, List.filter_map, List.length_map, Bool.not_false, Bool.and_true]
+    apply Nat.le_of_eq
+    congr 1
+    apply List.filter_congr
+    intro v _
+    simp only [Function.comp, hasOpsV, canonVarEnd, firstRel, lastRel]
+    have := @first_some_iff_last_some (occV s v) s.length
+    cases h1 : firstOcc (occV s v) s.length <;> cases h2 : lastOcc (occV s v) s.length <;>
+      simp [h1, h2, zipOpt] at this ⊢
+  · intro v hv; cases hv
+
+/-- `cursor_correct`: `fill_args_at_p(p, get_empty_args(All))` on the canonical container is the
+scan cursor (the remaining `unfilled` is bookkeeping of the walk) -/
+theorem fillArgsAtP_canon (nv : Nat) (nb : Option Nat) (s : Slots) (p : Nat) (hwf : WF nv nb s) :
+    (canon nv nb s).fillArgsAtP p (canon nv nb s).getEmptyArgsAll
+      = cursorByScan nv s p ((canon nv nb s).fillArgsAtP p (canon nv nb s).getEmptyArgsAll).unfilled := by
+  have hE := emptyArgs_WG nv nb s p
+  -- what the walk leaves in the per-variable tables
+  have hW : ∃ fl, WG nv s p fl ((canon nv nb s).fillArgsAtP p (canon nv nb s).getEmptyArgsAll) ∧
+      (∀ v, v < nv → ∀ x, prevOcc (occV s v) p = some x → fl v = true) := by
+    unfold fillArgsAtP
+    by_cases hu : (canon nv nb s).getEmptyArgsAll.unfilled > 0
+    · simp only [hu, if_true, getNode_canon]
+      have hfp : ∀ w, fil s p p w = false := by
+        intro w
+        unfold fil
+        cases hx : prevOcc (occV s w) p with
+        | none => rfl
+        | some x => have := (prevOcc_lt hx).1; simp; omega
+      cases hsp : slotAt s p with
+      | none =>
+        simp only [Option.map_none]
+        have hs : scanDown (canon nv nb s) p = prevOcc (occ s) p := by
+          unfold scanDown
+          apply prevOcc_congr
+          intro k; rw [← occ_abs, abs_canon]
+        rw [hs]
+        apply fillWalk_WG nv nb s p hwf (fun _ => false) (p + 1) p _ (Nat.le_refl p)
+        · exact WG_congr nv s p (fun v _ => by simp [hfp]) (fun v hv => by simp [hfp] at hv) hE
+        · intro q hq; have := (prevOcc_lt hq).1; omega
+      | some op =>
+        simp only [Option.map_some]
+        obtain ⟨A, hA⟩ := fillAtP_WG nv nb s p op hwf hsp _ hE
+        by_cases hcont : (fillAtP (canonNode s p op) (canon nv nb s).getEmptyArgsAll).2 = true
+        · simp only [hcont, if_true]
+          have hprev : (canonNode s p op).previousP = prevOcc (occ s) p := rfl
+          rw [hprev]
+          apply fillWalk_WG nv nb s p hwf A (p + 1) p _ (Nat.le_refl p) hA
+          intro q hq; have := (prevOcc_lt hq).1; omega
+        · simp only [hcont, Bool.false_eq_true, if_false]
+          refine ⟨_, hA, ?_⟩
+          apply WG_all_of_zero nv s p hA
+          have : (fillAtP (canonNode s p op) (canon nv nb s).getEmptyArgsAll).2
+              = decide ((fillAtP (canonNode s p op) (canon nv nb s).getEmptyArgsAll).1.unfilled > 0) := rfl
+          rw [this] at hcont
+          simpa using hcont
+    · simp only [hu, if_false]
+      exact ⟨_, hE, WG_all_of_zero nv s p hE (by omega)⟩
+  obtain ⟨fl, hfl, hall⟩ := hW
+  -- last_p
+  have hG : GInv nb (canon nv nb s) := by unfold GInv; rw [abs_canon, canon_g]
+  have hlp := fillArgsAtP_lastP hG p (canon nv nb s).getEmptyArgsAll rfl (by
+    intro hu
+    rw [abs_canon]
+    have hz := WG_all_of_zero nv s p hE hu
+    rw [prevOcc_none_iff]
+    intro k hk
+    cases hocc : occ s k with
+    | false => rfl
+    | true =>
+      exfalso
+      obtain ⟨ok, hok⟩ := occ_iff.mp hocc
+      obtain ⟨hne, _, hlt, _⟩ := hwf k ok hok
+      cases hv : ok.vars with
+      | nil => exact hne hv
+      | cons v t =>
+        have hmem : v ∈ ok.vars := by rw [hv]; simp
+        obtain ⟨x, hx, _⟩ := prevOcc_ge_of_mem (occV_of_mem hok hmem) hk
+        have := hz v (hlt v hmem) x hx
+        cases this)
+  rw [abs_canon] at hlp
+  have := WG_final nv s p hfl hall ((canon nv nb s).fillArgsAtP p (canon nv nb s).getEmptyArgsAll).unfilled
+  rw [← this, ← hlp]
+
 end FastOps
 end Qmc
